@@ -2,7 +2,7 @@ import Ebv.Model.Bytes
 import Ebv.Generated.Consts
 /-! Layout of array-map variables (`ArrayMap.collect`), the Python-side accessors
 (`ArrayGlobalVarDesc.__set__/unpack`, `PerCPUVar.__getitem__`), the byte-level view of the
-program-side access, map discovery (`EBPF.__init__`, `SimulatedEBPF.__init__`) and the
+program-side access, map discovery (`EBPF._maps`, `SimulatedEBPF.__init__`) and the
 `DeviceVar` dispatch.  Shared by C08 and C29.  Core Lean only. -/
 namespace Ebv.Collect
 open Ebv.Bytes
@@ -83,7 +83,8 @@ structure Triple where
 abbrev Key := Nat × Nat
 def Triple.key (t : Triple) : Key := (t.prog, t.name)
 
-/-- inner loop of `collect` over one class, with that class's own `unique` set -/
+/-- inner loops of `collect` for one program instance: all classes of its MRO in order, one `unique`
+set for the instance (an overriding declaration hides the inherited one) -/
 def classTriplesGo (m pid : Nat) : Cls → List Nat → List Triple
   | [], _ => []
   | d :: ds, seen =>
@@ -91,11 +92,16 @@ def classTriplesGo (m pid : Nat) : Cls → List Nat → List Triple
       ⟨fmtsize d.fmt, pid, d.name⟩ :: classTriplesGo m pid ds (d.name :: seen)
     else classTriplesGo m pid ds seen
 
-def classTriples (m pid : Nat) (cls : Cls) : List Triple := classTriplesGo m pid cls []
+def progTriples (m : Nat) (p : Prog) : List Triple := classTriplesGo m p.id p.mro.flatten []
 
-/-- `for prog in chain([ebpf], ebpf.subprograms): for cls in prog.__class__.__mro__: …` -/
-def triples (m : Nat) (progs : List Prog) : List Triple :=
-  progs.flatMap fun p => p.mro.flatMap (classTriples m p.id)
+/-- `dict.fromkeys(chain([ebpf], ebpf.subprograms))`: every program instance once, first occurrence -/
+def dedupGo : List Prog → List Nat → List Prog
+  | [], _ => []
+  | p :: ps, seen => if seen.contains p.id then dedupGo ps seen else p :: dedupGo ps (p.id :: seen)
+
+def dedupProgs (progs : List Prog) : List Prog := dedupGo progs []
+
+def triples (m : Nat) (progs : List Prog) : List Triple := (dedupProgs progs).flatMap (progTriples m)
 
 /-- stable insertion for `sort(key=size, reverse=True)`: `t` stood before everything in the list -/
 def insertDesc (t : Triple) : List Triple → List Triple
@@ -242,15 +248,15 @@ structure MapAttr where
   map : Nat
   deriving DecidableEq, Repr, Inhabited
 
-/-- `EBPF.__init__`: only `self.__class__.__dict__` -/
-def ebpfDiscover (mro : List (List MapAttr)) : List MapAttr := mro.headD []
-
 /-- `SimulatedEBPF.__init__`: the whole MRO, first attribute of each name -/
 def simDiscoverGo : List MapAttr → List Nat → List MapAttr
   | [], _ => []
   | a :: as, seen => if seen.contains a.attr then simDiscoverGo as seen else a :: simDiscoverGo as (a.attr :: seen)
 
 def simDiscover (mro : List (List MapAttr)) : List MapAttr := simDiscoverGo mro.flatten []
+
+/-- `EBPF._maps()` (used by `__init__`, `pin_maps`, `load`): the same walk, `ret.setdefault(k, v)` -/
+def ebpfDiscover (mro : List (List MapAttr)) : List MapAttr := simDiscoverGo mro.flatten []
 
 /-- each discovered map is collected and gets an array of the collected size -/
 def initMaps (found : List MapAttr) (progs : List Prog) : List (MapAttr × Nat) :=
